@@ -8,19 +8,80 @@ HOOK_COMMITS = subprocess.run(
 ).stdout.strip().splitlines()
 
 # id -> (engine, category, technique, level text, level note, design ref)
+T_DIFF = "runtime differential monitor"
 CHECKS = {
+    "C01": ("emit-run", "exploration",
+            "runtime monitoring of compiled emitted parsers: outcome of every execution vs reference recognisers (canonical LR(1), chart, Earley)",
+            "Each accepted grammar is emitted, compiled with rustc and executed on hundreds of inputs (exhaustive short strings, random sentences, prefix-extension sweep, edits, long inputs); Ok/Err of every execution is compared with membership decided by three independent reference recognisers that must agree; panics, aborts and exhausted CPU budgets of the child are refuting events; every input runs under two payload schemes.",
+            "Trusts rustc/std and harness/src/{lr,chart}.rs; inputs are bounded (<= ~6000 tokens, grammars <= ~8 nonterminals); termination judged by CPU budget of the child.", "5 (C01)"),
+    "C02": ("emit-run", "exploration",
+            "runtime monitoring of compiled emitted parsers: {:?} of the returned tree vs rendered reference derivation",
+            "For every accepted input the tree returned by the compiled parser, printed through derive(Debug), is compared with the reference derivation (validated by a definitional derivation checker) rendered with the payload built for each input position.",
+            "Trusts rustc/std (derive(Debug) format) and harness/src/lr.rs; payloads of type () are indistinguishable by construction.", "5 (C02)"),
+    "C03": ("emit-run", "exploration",
+            "runtime monitoring of compiled emitted parsers: returned error token and iterator pull count vs canonical LR(1) error index",
+            "For every rejected input the returned token (kind and position payload) and the number of items pulled from a lazy counting iterator are compared with the index where the canonical LR(1) parser stops (cross-checked by Earley's longest viable prefix when all nonterminals are productive); three iterator flavours.",
+            "Trusts harness/src/{lr,chart}.rs; pulls after the iterator returned None are not constrained.", "5 (C03)"),
     "C04": ("lalr-diff", "exploration",
             "runtime differential monitor: kiki::generate vs reference LALR(1) construction over generated grammars",
             "Every generated grammar is run through the real generate(); the Ok/TableConflict outcome is compared with conflict-freeness of an independent LALR(1) automaton (canonical LR(1) merged by core). Held = no disagreement on the grammars explored (corpus, random, families per class, complete small scope in the thorough tier).",
             "Trusts the reference construction in harness/src/lr.rs and rustc/std; grammars larger than the generator bounds are not observed.", "5 (C04)"),
+    "C05": ("compile", "exploration",
+            "runtime monitoring under rustc: emitted modules for adversarially named grammars must compile; payload types carry no trait",
+            "Every helper name the emitter uses (and its uniquified forms, letter-less names, the emitter's locals as field names) is placed alone in every role and in random mixes; payload types are bare structs without derives; each emitted module is compiled with rustc --emit=metadata. Two recorded emitter limitations are KNOWN-FINDINGs keyed on structural condition + rustc error.",
+            "rustc (stable, edition 2021) is the judge; names outside the pools are not tried.", "5 (C05)"),
+    "C06": ("compile", "exploration",
+            "runtime monitoring under rustc: emitted item shapes read token-wise + a generated client that must type-check",
+            "For every accepted grammar the emitted pub enum/struct items and the parse signature are read token-wise and compared with the expected shape, and a client outside the module that constructs, destructures (no `..`), matches (no wildcard), ascribes field types, reads public fields and coerces parse to concrete fn types is type-checked with rustc.",
+            "Trusts rustc and harness/src/{skim,shape}.rs (unreadable text is inconclusive).", "5 (C06)"),
+    "C07": ("front", "exploration",
+            "runtime monitoring with fault observation: generate under catch_unwind, H2 step-limit hooks, child-process abort and CPU-budget observation",
+            "generate is called on ~450k hostile inputs per quick run (soups, every 1-2 atom string, edits and prefixes of valid files, files with injected violations, unusual well-formed grammars) with the H2 step limit armed, and on size/depth stress files in separate child processes in both the optimised and the dev-profile build (8 MiB stack, 8 GiB address space, CPU budget); panics, step-limit trips, signals and exhausted budgets are the refuting events.",
+            "Termination is judged in logical steps (H2) and CPU time, never wall-clock; bounds as in the property (<= 64 KiB, <= 2000 declarations, nesting <= 256); stress sizes are limited so that the pinned tree needs < 1 min per file.", "5 (C07)"),
+    "C08": ("front", "exploration",
+            "runtime differential monitor: tokenizer tap + generate vs reference scanner R-lex on hostile strings",
+            "Every string (all 1-2 atom strings, 3 in thorough, soups, edited valid files, prefixes, attribute and token soups) is tokenised by kiki (H1 tap) and by R-lex; tokens (kind, start, text) or the error (byte index, char) must be equal, and generate must return the same lexical error at the public boundary.",
+            "R-lex (harness/src/rlex.rs) encodes the documented rules; strings up to 64 atoms.", "5 (C08)"),
+    "C09": ("front", "exploration",
+            "runtime differential monitor: generate vs the Kiki grammar as data under the reference LR(1) recogniser (+ predictive recogniser)",
+            "Lexically valid texts (prefix-extension sweep over valid files with all 17 token kinds, token edits, random sentences of the Kiki grammar, token soups; random layout) are given to generate; accept / Parse(start,text,end) of the first token that cannot continue / empty span at the end must match the reference verdict; the two reference recognisers must agree.",
+            "The 42-production grammar in harness/src/rkiki.rs is the published grammar; only texts that kiki tokenises like R-lex are judged (others are C08's).", "5 (C09)"),
+    "C10": ("front", "exploration",
+            "runtime differential monitor: generate vs R-validate (set of all static violations) on files with injected violations",
+            "Syntactically valid files with 0-3 injected violations of every kind (incl. cross-namespace references) and random declarations over a tiny name pool are given to generate: Ok/TableConflict only if R-validate finds no violation, otherwise the reported variant, name / symbol sequence and every byte position must describe a violation really present.",
+            "harness/src/rvalidate.rs encodes the rules of the property statement; any violation present may be the reported one.", "5 (C10)"),
     "C11": ("lalr-diff", "translation_validation",
             "runtime monitor over returned error values: each TableConflict payload validated against the reference automaton",
             "Each TableConflict error actually returned is validated on its own: state index in range, items in that state, the two items demand different actions on a common lookahead, attached automaton isomorphic (cores, lookaheads, transitions, start) to the reference LALR(1) automaton, attached grammar equal to the reference AST of the input text.",
             "Trusts harness/src/lr.rs, rlex.rs, rkiki.rs; only conflicting grammars produced by the generators are observed.", "5 (C11)"),
+    "C12": ("text", "exploration",
+            "runtime monitor over emitted text: attribute lines above each emitted type vs the attributes written (byte comparison, unique markers)",
+            "Grammars with 0-4 hostile single-line attributes per declaration (nested brackets, quotes, //, CR, TAB, Unicode spaces, 2/3/4-byte characters, empty #[]) are generated; the lines immediately above each emitted pub struct/enum must be byte-for-byte the declaration's attributes in order and each marked attribute must occur exactly once in the emitted text.",
+            "Locating `pub struct|enum <Name>` lines assumes type definitions start a line (unlocatable => inconclusive).", "5 (C12)"),
+    "C13": ("text", "exploration",
+            "runtime monitor over emitted text: payload types at every use site re-tokenised vs the declared token sequence",
+            "Random payload types (unit, paths, generics nested to depth 8, written with random layout/comments) are compared token-for-token at every use site: terminal enum, every field of that terminal, node enum variant, try_into_* return type; the C06 client covers the compile level with real types.",
+            "Trusts harness/src/{skim,shape}.rs; unreadable emitted text is inconclusive.", "5 (C13)"),
+    "C14": ("text", "exploration",
+            "runtime monitoring across hash seeds: repeated generate calls on fresh threads and in separate processes must return identical bytes",
+            "Every input (all outcome classes) is run 8 times on fresh threads (fresh SipHash keys) and in 2 further processes; Ok bytes / error {:?} must be identical; a canary HashSet records the number of distinct hash orders actually sampled.",
+            "Hash seeds are sampled, not controlled: detection per input is probabilistic.", "5 (C14)"),
+    "C15": ("text", "exploration",
+            "runtime differential monitor: emitted header and get_grammar_hash vs independent SHA-256 and the rule of the property statement",
+            "For accepted sources the header must contain `// @sha256 ` + SHA-256(source) by an independent, self-tested implementation, get_grammar_hash must read it back, and the build-script freshness comparison must accept the same text and reject a one-byte change; for header-like arbitrary texts get_grammar_hash is compared with the rule as stated.",
+            "Lines are str::lines() lines (LF or CRLF).", "5 (C15)"),
+    "C16": ("text", "exploration",
+            "runtime metamorphic monitor: generate(source) vs generate(re-layout) with positions mapped through the token-start map",
+            "Sources of every class are re-laid-out up to 6 times (any Unicode whitespace, LF/CRLF, comments with arbitrary content, comment at EOF, one line) keeping the token sequence (re-checked with R-lex); Ok outputs must be identical outside the hash line and errors identical after mapping byte positions.",
+            "R-lex decides what a token is; for lexically invalid sources only the text before the offending lexeme is re-laid-out.", "5 (C16)"),
     "C17": ("lalr-diff", "translation_validation",
             "per-program translation validation at run time: emitted ACTION/GOTO tables vs reference LALR(1) automaton",
             "For each accepted grammar the tables and start state are read back from the emitted text and compared cell by cell with the reference LALR(1) automaton under a state bijection established by a simultaneous walk (all states must be reached, error action everywhere else).",
             "Trusts the token-level reader of emitted text (harness/src/skim.rs; unreadable text is inconclusive, never a verdict) and harness/src/lr.rs.", "5 (C17)"),
+    "C18": ("oset", "exploration",
+            "runtime monitoring of operation histories vs a BTreeSet model, plus the H3 invariant hook under pipeline load",
+            "Random histories (new, from_iter, insert, extend, clone, contains, comparisons) over 1-4 live sets and 7 element types incl. kiki's own are replayed on Oset and on BTreeSet; after every operation all iteration forms, contains, equality, history-independence of cmp and the order laws are checked; the H3 hook asserts strict ascent after every mutation inside real pipeline runs.",
+            "std BTreeSet is the model; element types have lawful Ord.", "5 (C18)"),
 }
 
 NOT_YET = {
